@@ -87,3 +87,46 @@ pub fn engine_for(prop: &str, tier: Tier) -> Option<(Arc<dyn Engine>, &'static s
     return None;
 }
 
+
+/// The storm phase of a property: the same generators and oracles, but every
+/// case runs in storm mode (wakers are invoked by helper threads, truly
+/// concurrently with polls of the combinator / operations on the group). Only
+/// the std configurations have shared readiness state that a wake-up from
+/// another thread could race with; selectivity (C16) cannot be judged without
+/// an order between wake-ups and polls, and the fairness runs (C17) have no
+/// wake-ups to speak of.
+#[cfg(all(feature = "cfg-std", not(feature = "with-co")))]
+pub fn storm_engine_for(prop: &str, tier: Tier) -> Option<(Arc<dyn Engine>, u64, usize)> {
+    let cases = props::storm_cases(tier);
+    if let Some(p) = props::comb_prop(prop) {
+        if matches!(p.id, "C16" | "C17") {
+            return None;
+        }
+        let mut e = engine_comb::CombEngine::new(p, tier);
+        e.profile.p_storm = 256;
+        e.profile.big_vec = false;
+        if matches!(p.id, "C01" | "C02" | "C03" | "C20") {
+            let mut gf = props::group_share(p.id, world::Family::FutGroup, tier);
+            let mut gs = props::group_share(p.id, world::Family::StrGroup, tier);
+            gf.base.p_storm = 256;
+            gs.base.p_storm = 256;
+            let fg = groups::GroupEngine { gp: gf, fold_shared: false };
+            let sg = groups::GroupEngine { gp: gs, fold_shared: false };
+            let m = driver::MultiEngine { parts: vec![(70, Arc::new(e)), (15, Arc::new(fg)), (15, Arc::new(sg))], name: "comb+group (storm)" };
+            let m: Arc<dyn Engine> = if p.id == "C20" { Arc::new(driver::C20Fold(Arc::new(m))) } else { Arc::new(m) };
+            return Some((m, cases, 700));
+        }
+        return Some((Arc::new(e), cases, (p.max_len)(Tier::Quick)));
+    }
+    if let Some(p) = props::group_prop(prop) {
+        let mut gp = (p.profile)(tier);
+        gp.base.p_storm = 256;
+        let e = groups::GroupEngine { gp, fold_shared: true };
+        return Some((Arc::new(e), cases, (p.max_len)(Tier::Quick)));
+    }
+    None
+}
+#[cfg(not(all(feature = "cfg-std", not(feature = "with-co"))))]
+pub fn storm_engine_for(_prop: &str, _tier: Tier) -> Option<(Arc<dyn Engine>, u64, usize)> {
+    None
+}
